@@ -3,10 +3,10 @@ SPECIFICATION Spec
 CONSTANTS
   Kinds = {"slurm"}
   Modes = {"asbuilt"}
-  MaxPolls = 2
-  ExhLen = 2
+  MaxPolls = 1
+  ExhLen = 1
   SampleMod = 1
   Seed = 0
-  OptPlan = "all"
+  OptPlan = "few"
 INVARIANT Inv
 CHECK_DEADLOCK FALSE
